@@ -5,7 +5,7 @@ From TS Require Import Model.Str Model.Outcome Model.Unicode Model.Syntax Model.
                        Model.Lang.Scala Model.Lang.Go Model.Lang.Python.
 From TS Require Import Spec.Serde Spec.TargetOsRule Spec.C03Spec.
 From TS Require Proofs.FrontItems Proofs.C03 Proofs.C03_TS Proofs.C03_Kotlin Proofs.C03_Swift Proofs.C03_Scala Proofs.C03_Go
-                Proofs.C03_Python Proofs.C03_Witness.
+                Proofs.C03_Python Proofs.C03_Witness Proofs.C03Src.
 Import ListNotations.
 Definition parse_leaf (uc : unicode) (tstr : str -> option ty) (T : list str) (it : item) : outcome ritem :=
   match it with
@@ -76,6 +76,17 @@ Goal forall (uc : unicode) (tstr : str -> option ty) (T : list str) (x : item) (
   parse_leaf uc tstr T x = Ok it -> dom_C03_item it = true.
 Proof. exact Props.C03.C03_parsed_in_dom. Qed.
 Print Assumptions Props.C03.C03_parsed_in_dom.
+Goal forall (uc : unicode), unicode_ok uc -> forall (tstr : str -> option ty) (T : list str) (L : lang) (x : item) (it : ritem),
+  dom_C03_src T x = true -> parse_leaf uc tstr T x = Ok it ->
+  c03_expected_sigs L it = c03_src_expected_sigs uc T L x.
+Proof. exact Props.C03.C03_src_item. Qed.
+Print Assumptions Props.C03.C03_src_item.
+Goal forall (uc : unicode), unicode_ok uc -> forall (tstr : str -> option ty) (T : list str) (L : lang) (f : file) (its : list ritem),
+  forallb (dom_C03_src T) (expected_leaves T f) = true ->
+  Forall2 (fun x it => parse_leaf uc tstr T x = Ok it) (expected_leaves T f) its ->
+  c03_src_file_expected uc T L f = flat_map (c03_expected_sigs L) its.
+Proof. exact Props.C03.C03_src_file. Qed.
+Print Assumptions Props.C03.C03_src_file.
 Goal forall (uc : unicode) (cfg : ts_config) (it : ritem) st d st',
   ts_decl_of uc cfg it st = Ok (d, st') -> good_C03_item TypeScript it [ts_obs d] = true.
 Proof. exact Props.C03.C03_item_TypeScript. Qed.
